@@ -14,6 +14,8 @@
 (*  "nestfan" (op (op v..a) (op v..b))  op in and/or: flattens under RN    *)
 (*  "chainR"  (op v (op v (... v)))     a operators, right-leaning         *)
 (*  "chainL"  (op (op (... v v) v) v)   a operators, left-leaning          *)
+(*  "chainZ"  (+ (one) (+ (one) (... (one))))  a operators over the        *)
+(*            zero-operand operator `one`: the stack peaks at an OPERATOR  *)
 (*  "cmpfan"  (op (= n n) ... (= n n))  a comparisons under and/or         *)
 (*  "ifchain" (if x (if x (... n) n) n) a nested ifs in the true branch    *)
 (* v is the variable n for arithmetic operators and x for and/or, so       *)
@@ -37,6 +39,7 @@ Build(d) ==
     [] d.fam = "nestfan" -> O(d.op, <<O(d.op, Rep(V("x"), d.a)), O(d.op, Rep(V("x"), d.b))>>)
     [] d.fam = "chainR" -> ChainR(d.op, LeafOf(d.op), d.a)
     [] d.fam = "chainL" -> ChainL(d.op, LeafOf(d.op), d.a)
+    [] d.fam = "chainZ" -> ChainR(d.op, O("one", <<>>), d.a)       \* innermost leaf is a zero-operand operator call
     [] d.fam = "cmpfan" -> O(d.op, Rep(O("=", <<V("n"), V("n")>>), d.a))
     [] d.fam = "ifchain" -> O("+", <<IfChain(d.a), V("n")>>)
 
@@ -49,12 +52,14 @@ NodesOf(d, m) ==
   CASE d.fam = "fan" -> d.a + 1
     [] d.fam = "nestfan" -> IF Flattens(d, m) THEN d.a + d.b + 1 ELSE d.a + d.b + 3
     [] d.fam \in {"chainR", "chainL"} -> IF Flattens(d, m) /\ d.a >= 1 THEN d.a + 2 ELSE 2 * d.a + 1
+    [] d.fam = "chainZ" -> 2 * d.a + 1
     [] d.fam = "cmpfan" -> 3 * d.a + 1
     [] d.fam = "ifchain" -> 4 * d.a + 3     \* per if: cond, IF, FI, else-leaf; + innermost n, outer n, +
 KidsOf(d, m) ==
   CASE d.fam = "fan" -> d.a
     [] d.fam = "nestfan" -> IF Flattens(d, m) THEN d.a + d.b ELSE Max2(2, Max2(d.a, d.b))
     [] d.fam \in {"chainR", "chainL"} -> IF d.a = 0 THEN 0 ELSE IF Flattens(d, m) THEN d.a + 1 ELSE 2
+    [] d.fam = "chainZ" -> IF d.a = 0 THEN 0 ELSE 2
     [] d.fam = "cmpfan" -> Max2(2, d.a)
     [] d.fam = "ifchain" -> IF d.a = 0 THEN 2 ELSE 4
 \* value under env (n an int, x a bool); and/or of copies of x is x; (= n n) is true
@@ -63,6 +68,7 @@ ValueOf(d, env) ==
     [] d.fam = "cmpfan" -> B(TRUE)
     [] d.fam = "fan" -> (CASE Canon(d.op) = "add" -> I(d.a * env.n.v) [] Canon(d.op) = "mul" -> I(env.n.v))
     [] d.fam \in {"chainR", "chainL"} -> I((d.a + 1) * env.n.v)
+    [] d.fam = "chainZ" -> I(d.a + 1)
     [] d.fam = "ifchain" -> I(2 * env.n.v)
 
 \* ---- the capacity rule (compiler.go: optimize, then check, then event doubling) ----
